@@ -13,59 +13,71 @@ Open Scope Z_scope.
    (or once) passes to grow exactly the explicit ids, or the missing ids when some results
    exist, or 1..B when there are none -- as a list (same order, same multiplicities); hence,
    when the requested ids are duplicate-free, each exactly once. *)
-Theorem C16_tasks_exact : forall sc md bids nres missing B,
+Theorem C16_tasks_exact : forall sc md (a : ids_arg) nres missing B,
+  let bids := norm_ids a in
   state_consistent bids nres missing B ->
-  let tasks := tasks_grown (gen_select sc md bids nres missing B) missing in
+  let tasks := tasks_grown (gen_select sc md a nres missing B) missing in
   tasks = intended bids nres missing B
   /\ ((forall l, bids = Some l -> NoDup l) -> NoDup missing ->
       NoDup tasks /\ Permutation tasks (intended bids nres missing B)).
 Proof.
-  intros sc md bids nres missing B Hc tasks. subst tasks. rewrite bridge_select.
+  intros sc md a nres missing B bids Hc tasks. subst tasks. rewrite bridge_select. fold bids.
   rewrite (tasks_exact sc bids nres missing B md Hc). split; [reflexivity|].
   intros Hl Hm. split; [apply intended_nodup; assumption|apply Permutation_refl].
+Qed.
+
+(* the request spelled as a single int (documented: "batch_ids : int or tuple[int]") grows
+   exactly that batch, once -- under every scheduler and mode, whatever the crop state *)
+Theorem C16_int_spelling : forall sc md z nres missing B,
+  tasks_grown (gen_select sc md (ArgInt z) nres missing B) missing = [z].
+Proof.
+  intros sc md z nres missing B.
+  apply (C16_tasks_exact sc md (ArgInt z) nres missing B). intros H. discriminate H.
 Qed.
 
 (* The array range written into the header is 1..n with n the number of intended tasks (so it
    has exactly as many indices as there are tasks); for PBS and a single task the array line is
    dropped and the rewrite is applied -- and only then. *)
-Theorem C16_array_range : forall sc bids nres missing B,
+Theorem C16_array_range : forall sc (a : ids_arg) nres missing B,
+  let bids := norm_ids a in
   0 <= B ->
-  let s := gen_select sc MArray bids nres missing B in
+  let s := gen_select sc MArray a nres missing B in
   let n := Z.of_nat (length (intended bids nres missing B)) in
   header_range s = (if sched_eqb sc PBS && (n =? 1) then None else Some (1, n))
   /\ s_rewrite s = sched_eqb sc PBS && (n =? 1)
-  /\ (forall a b, header_range s = Some (a, b) -> b - a + 1 = n)
+  /\ (forall lo hi, header_range s = Some (lo, hi) -> hi - lo + 1 = n)
   /\ (header_range s = None -> n = 1).
 Proof.
-  intros sc bids nres missing B HB s n. subst s. rewrite bridge_select.
+  intros sc a nres missing B bids HB s n. subst s. rewrite bridge_select. fold bids.
   destruct (array_range sc bids nres missing B HB) as [Hr Hw]. fold n in Hr, Hw.
   split; [exact Hr|]. split; [exact Hw|]. rewrite Hr.
   destruct (sched_eqb sc PBS && (n =? 1)) eqn:E.
   - split; [discriminate|]. intros _. apply andb_true_iff in E as [_ E]. lia.
-  - split; [|discriminate]. intros a b H. injection H as <- <-. lia.
+  - split; [|discriminate]. intros lo hi H. injection H as <- <-. lia.
 Qed.
 
 (* the PBS single-element case grows exactly that one id, with no array line in the script *)
-Theorem C16_pbs_single_element : forall bids nres missing B x,
+Theorem C16_pbs_single_element : forall (a : ids_arg) nres missing B x,
+  let bids := norm_ids a in
   state_consistent bids nres missing B -> 0 <= B ->
   intended bids nres missing B = [x] ->
-  let s := gen_select PBS MArray bids nres missing B in
+  let s := gen_select PBS MArray a nres missing B in
   header_range s = None /\ s_rewrite s = true /\ runs s = [None] /\ tasks_grown s missing = [x].
 Proof.
-  intros bids nres missing B x Hc HB Hx s.
-  destruct (C16_array_range PBS bids nres missing B HB) as (Hr & Hw & _). fold s in Hr, Hw.
+  intros a nres missing B x bids Hc HB Hx s.
+  destruct (C16_array_range PBS a nres missing B HB) as (Hr & Hw & _). fold s bids in Hr, Hw.
   rewrite Hx in Hr, Hw. cbn in Hr, Hw.
-  destruct (C16_tasks_exact PBS MArray bids nres missing B Hc) as [Ht _]. fold s in Ht.
+  destruct (C16_tasks_exact PBS MArray a nres missing B Hc) as [Ht _]. fold s bids in Ht.
   repeat split; try assumption; [unfold runs; now rewrite Hr | now rewrite Ht].
 Qed.
 
 (* single mode: no array line, one execution, which hands crop.grow the whole list *)
-Theorem C16_single_once : forall sc bids nres missing B,
-  runs (gen_select sc MSingle bids nres missing B) = [None].
+Theorem C16_single_once : forall sc (a : ids_arg) nres missing B,
+  runs (gen_select sc MSingle a nres missing B) = [None].
 Proof.
   intros. rewrite bridge_select. unfold runs.
-  destruct (single_tasks sc (select sc MSingle bids nres missing B) missing) as [_ ->];
-    destruct bids; reflexivity.
+  destruct (single_tasks sc (select sc MSingle (norm_ids a) nres missing B) missing) as [_ ->];
+    destruct (norm_ids a); reflexivity.
 Qed.
 
 (* the consistency hypothesis is a fact of the crop model: with no result on disk the missing
@@ -88,14 +100,15 @@ Theorem C16_templates_wf :
 Proof. vm_compute. reflexivity. Qed.
 
 (* with the selection: every field of every piece of every selected script is supplied *)
-Theorem C16_fields_supplied : forall sc md bids nres missing B p ts,
-  let s := gen_select sc md bids nres missing B in
+Theorem C16_fields_supplied : forall sc md (a : ids_arg) nres missing B p ts,
+  let s := gen_select sc md a nres missing B in
   In p (s_pieces s) -> tokens (gen_template p) = Some ts ->
   forall f, In f (fields ts) ->
     In f (gen_opts_keys ++ gen_ids_keys ++
           (if opt_is_some (s_run_start s) && opt_is_some (s_run_stop s) then gen_array_keys else [])).
 Proof.
-  intros sc md bids nres missing B p ts s Hp Ht f Hf. subst s. rewrite bridge_select in *.
+  intros sc md a nres missing B p ts s Hp Ht f Hf. subst s. rewrite bridge_select in *.
+  set (bids := norm_ids a) in *.
   pose proof C16_templates_wf as W. rewrite forallb_forall in W.
   assert (Hin : In (p, gen_template p) all_templates).
   { unfold all_templates. apply (in_map (fun q => (q, gen_template q)) all_pieces p). destruct p; cbn; tauto. }
@@ -138,7 +151,7 @@ Qed.
 
 (* the tie: the definitions regenerated from cropping.py on this run are the model *)
 Theorem C16_code_tie :
-  (forall sc md bids nres missing B, gen_select sc md bids nres missing B = select sc md bids nres missing B)
+  (forall sc md a nres missing B, gen_select sc md a nres missing B = select sc md (norm_ids a) nres missing B)
   /\ gen_dynamic_expr = dynamic_expr
   /\ rewrite_ok (gen_template PPbsArrayHeader) gen_rewrite_drop gen_rewrite_var gen_rewrite_val = true.
 Proof. exact (conj bridge_select (conj bridge_dynamic_expr bridge_rewrite)). Qed.
@@ -146,28 +159,34 @@ Proof. exact (conj bridge_select (conj bridge_dynamic_expr bridge_rewrite)). Qed
 (* ---- non-vacuity ---- *)
 (* a partially grown crop of 6 batches, SLURM array: tasks 1..3 grow the missing 2, 5, 6 *)
 Example C16_example_partial :
-  let s := gen_select SLURM MArray None 3 [2; 5; 6] 6 in
+  let s := gen_select SLURM MArray ArgNone 3 [2; 5; 6] 6 in
   header_range s = Some (1, 3) /\ tasks_grown s [2; 5; 6] = [2; 5; 6]
   /\ map (grown_by_run s [2; 5; 6]) (runs s) = [[2]; [5]; [6]]
   /\ s_pieces s = [PSlurmHeader; PSlurmArrayHeader; PBase; PSlurmPartial; PEnd].
 Proof. vm_compute. repeat split; reflexivity. Qed.
 (* PBS, one explicit id: no array line, constant index, grows batch 4 *)
 Example C16_example_pbs_one :
-  let s := gen_select PBS MArray (Some [4]) 0 [1; 2; 3; 4; 5] 5 in
+  let s := gen_select PBS MArray (ArgList [4]) 0 [1; 2; 3; 4; 5] 5 in
   header_range s = None /\ s_rewrite s = true /\ tasks_grown s [1; 2; 3; 4; 5] = [4].
+Proof. vm_compute. repeat split; reflexivity. Qed.
+(* the int spelling on a partially grown crop, SGE array: one task, grows batch 3 *)
+Example C16_example_int :
+  let s := gen_select SGE MArray (ArgInt 3) 2 [1; 3; 4] 4 in
+  header_range s = Some (1, 1) /\ s_ids s = IdsList [3] /\ tasks_grown s [1; 3; 4] = [3].
 Proof. vm_compute. repeat split; reflexivity. Qed.
 (* a fresh crop, SGE single mode: the program computes the ids when it runs *)
 Example C16_example_single :
-  let s := gen_select SGE MSingle None 0 [1; 2; 3] 3 in
+  let s := gen_select SGE MSingle ArgNone 0 [1; 2; 3] 3 in
   s_ids s = IdsDynamic /\ tasks_grown s [1; 2; 3] = [1; 2; 3] /\ state_consistent None 0 [1; 2; 3] 3.
 Proof. vm_compute. repeat split; reflexivity. Qed.
 (* the consistency hypothesis matters: were the dynamic list not the missing ids, the single
    script would not grow 1..B *)
 Example C16_example_hypothesis_needed :
-  tasks_grown (gen_select SGE MSingle None 0 [2] 3) [2] <> intended None 0 [2] 3.
+  tasks_grown (gen_select SGE MSingle ArgNone 0 [2] 3) [2] <> intended None 0 [2] 3.
 Proof. vm_compute. discriminate. Qed.
 
 Print Assumptions C16_tasks_exact.
+Print Assumptions C16_int_spelling.
 Print Assumptions C16_array_range.
 Print Assumptions C16_pbs_single_element.
 Print Assumptions C16_single_once.
